@@ -6,6 +6,7 @@ pub mod c04;
 pub mod c06;
 pub mod c07;
 pub mod c09;
+pub mod c18;
 pub mod c10;
 pub mod c11;
 pub mod c11w;
